@@ -1255,6 +1255,38 @@ class Task:
             return outs + outs2
         return outs + self._run_loop_from(node, st, h, k, spec, it, inv, lname, env_of)
 
+    def unconstrained_carried(self, node, spec):
+        """locals whose value flows from one iteration into the next (or out of the loop) and that no clause of the loop's
+        contract mentions: written in the body, and read in the loop before that write (textually) or after the loop"""
+        import re as _re
+        texts = []
+        for key in ("inv", "post", "body_post"):
+            for t in (spec.get(key) or {}).values():
+                texts += [str(x) for x in t.values()] if isinstance(t, dict) else [str(t)]
+        texts += list((spec.get("local_sorts") or {}).keys())
+        texts += list(spec.get("unconstrained_ok") or [])      # carried locals the contract knowingly leaves unconstrained
+        blob = "\n".join(texts)
+        targets = {x.id for x in ast.walk(node.target) if isinstance(x, ast.Name)} if isinstance(node, ast.For) else set()
+        stores, loads = {}, {}
+        for part in node.body + ([node.test] if isinstance(node, ast.While) else []):
+            for x in ast.walk(part):
+                if isinstance(x, ast.Name):
+                    d = stores if isinstance(x.ctx, ast.Store) else loads
+                    pos = (x.lineno, x.col_offset)
+                    d[x.id] = min(d.get(x.id, pos), pos)
+                elif isinstance(x, ast.AugAssign) and isinstance(x.target, ast.Name):
+                    loads[x.target.id] = min(loads.get(x.target.id, (x.lineno, 0)), (x.lineno, 0))
+        after = {x.id for x in ast.walk(self.fn) if isinstance(x, ast.Name) and isinstance(x.ctx, ast.Load) and x.lineno > node.end_lineno}
+        out = []
+        for name, wpos in sorted(stores.items()):
+            if name in targets or name == "self":
+                continue
+            # an assignment `x = e` is stored at the position of x but e is evaluated first: compare on the line
+            live = (name in loads and loads[name][0] <= wpos[0] and loads[name] != wpos) or name in after
+            if live and not _re.search(r"\b(L_)?" + _re.escape(name) + r"\b", blob):
+                out.append(name)
+        return out
+
     def _run_loop_from(self, node, st, h, k, spec, it, inv, lname, env_of):
         outs = []
         iv = None
@@ -1265,6 +1297,11 @@ class Task:
         for name, t in inv.items():
             h.assume(self.spec_bool(h, t, env_of(h, iv), self.old, self.receiver))
         h.trace.append((node.lineno, f"loop#{k}"))
+        unc = self.unconstrained_carried(node, spec)
+        if unc:
+            # a counter-model found past this cut may start from a value of these locals that no execution produces: the driver
+            # reports such a failure as "contract does not fit the text" (undecided) unless it is reproduced on the real code
+            h.trace.append((node.lineno, "unconstrained loop-carried local(s): " + ", ".join(unc)))
 
         exits = []       # states leaving the loop normally
         if it is None:
